@@ -43,6 +43,7 @@ func genProfileAndGraphs(t *rapid.T, name string, nGraphs int) (string, []*m.Gra
 		p.Validations = append(p.Validations, m.Validation{Name: fmt.Sprintf("v%d", i), Level: pick(t, []string{"violation", "warning", "info"}, "level"), Class: "ex.Test", Body: g.bounded(40),
 			Message: pick(t, []string{"", "failed {{ex.p0}}", "plain message", "100% of {{ex.p0}} is 50%d", "%s %v %d"}, "msg")})
 	}
+	decorateLevelLists(t, p)
 	for _, v := range p.Validations {
 		v.Body.MarkPolarity(m.Pos)
 	}
@@ -61,6 +62,29 @@ func genProfileAndGraphs(t *rapid.T, name string, nGraphs int) (string, []*m.Gra
 		graphs = append(graphs, randomGraph(t, g.atoms, edges, 5))
 	}
 	return p.ToY().Print(m.YOpts{}), graphs, p
+}
+
+// decorateLevelLists adds names that are listed under a level without being defined (the language ignores them):
+// retired names, and near misses of defined names - another letter case, surrounding blanks - which are different
+// names all the same.
+func decorateLevelLists(t *rapid.T, p *m.Profile) {
+	if len(p.Validations) == 0 || rapid.IntRange(0, 2).Draw(t, "undefinedNames") != 0 {
+		return
+	}
+	if p.Undefined == nil {
+		p.Undefined = map[string][]string{}
+	}
+	for _, lvl := range []string{"violation", "warning", "info"} {
+		if !rapid.Bool().Draw(t, "undef-"+lvl) {
+			continue
+		}
+		base := p.Validations[rapid.IntRange(0, len(p.Validations)-1).Draw(t, "nearMissOf")].Name
+		name := pick(t, []string{"retired-" + lvl, strings.ToUpper(base), strings.Title(base), " " + base, base + " ", base + "\t", base + "_"}, "undefinedName")
+		if name == base {
+			name = "retired-" + lvl
+		}
+		p.Undefined[lvl] = append(p.Undefined[lvl], name)
+	}
 }
 
 func genC09(t *rapid.T) c09Case {
